@@ -3,7 +3,7 @@
    /repo/core/blockchain.go (writeHeadBlock, reorg, SetCanonical, insertChain,
    insertSideChain, recoverAncestors, SetHead, restart); each is closed by [exact]
    of a lemma of Chain/CanonicalProofs.v, CanonicalInv.v or CanonicalWitness.v. *)
-From GV Require Import Lib.Tactics Chain.Tree Chain.Canonical Chain.LookupCache Chain.CanonicalProofs Chain.CanonicalInv Chain.CanonicalTop Chain.CanonicalWitness.
+From GV Require Import Lib.Tactics Chain.Tree Chain.Canonical Chain.LookupCache Chain.CanonicalProofs Chain.CanonicalInv Chain.CanonicalTop Chain.CanonicalIndex Chain.CanonicalEvents Chain.CanonicalCache Chain.CanonicalWitness.
 Local Open Scope N_scope.
 
 (* The index is parent-linked up to the head, names the head at its height, and the head
@@ -138,6 +138,115 @@ Theorem C38_known_reimport_silent_refuted :
 Proof. exact known_reimport_silent_refuted. Qed.
 Print Assumptions C38_known_reimport_silent_refuted.
 
+(* ---- the tx lookup index (rawdb tx hash -> block number; the whole chain is indexed: tail 0) ----
+   For all histories of InsertChain / InsertBlockWithoutSetHead / SetCanonical / restart along
+   which the heads stay together: an entry tx -> n exists IFF the tx is in the canonical block
+   of height n.  Hypotheses on the tree: well-formed, the genesis parent hash names no block,
+   a tx occurs at most once among the ancestors of any block (nonces), the genesis has no txs.
+   Exact exception: SetHead, which deletes blocks and markers but not their entries
+   (C38-sethead-stale-lookups): C38_tx_index_sethead_refuted. *)
+Theorem C38_tx_index_exact :
+  forall (T : tree) (fuel : nat) (ops : list op),
+    wf_tree T -> (forall g, T 0 = Some g -> T (b_parent g) = None) ->
+    tx_once_per_branch T -> (forall g, T 0 = Some g -> forall tx, ~ In tx (b_txs g)) ->
+    Forall not_set_head ops -> heads_equal_along T fuel genesis_db ops ->
+    let st := run T fuel genesis_db ops in
+    forall tx n, lookup st tx = Some n <->
+                 exists h b, canon st n = Some h /\ T h = Some b /\ In tx (b_txs b).
+Proof.
+  intros T fuel ops Hwf Hgp HU Hg Hops HE st tx n.
+  destruct (run_LInv T Hwf Hgp HU Hg fuel ops genesis_db Hops HE (LInv_genesis T Hwf Hg)) as (_ & HLS & HLC).
+  split; [apply HLS | intros (h & b & Hc & Hb & Hin); eapply HLC; eauto].
+Qed.
+Print Assumptions C38_tx_index_exact.
+
+Theorem C38_tx_index_sethead_refuted :
+  let st := wrun [OInsert [1;2]; OSetHead 1] in
+  lookup st 7 = Some 2 /\ canon st 2 = None /\ hd_header st = 1 /\ hd_block st = 1.
+Proof. exact tx_index_sethead_refuted. Qed.
+Print Assumptions C38_tx_index_sethead_refuted.
+
+(* ---- what every head change announces (full lists; the >512 chunking is abstracted by
+   concatenation).  [switch st x leaving entering]: either x extends the head block
+   (leaving = [], entering = [x]) or leaving / entering are the old / new branch above the
+   common ancestor, newest first; entering = [] iff x was canonical already (an ancestor of
+   the head, or the head).  [logs_old_first] lists their logs oldest block first. ---- *)
+
+(* SetCanonical (head state present): removed = logs of the leaving blocks; added = logs of
+   the entering blocks below x, then x's; one ChainEvent and one ChainHeadEvent, for x.
+   Stated exception (C38-setcanonical-reemits-logs): x's logs are emitted also when
+   entering = [], i.e. when x does not enter the chain. *)
+Theorem C38_set_canonical_events_exact :
+  forall (T : tree) fuel st x st' evs,
+    avail st (fst x) = true -> set_canonical T fuel st x = (st', evs, None) -> hdr_ok T x ->
+    (forall cur, cur_hdr T st = Some cur -> hdr_ok T cur) ->
+    exists leaving entering, switch T st x leaving entering /\
+      removed_logs evs = logs_old_first st leaving /\
+      added_logs evs = logs_old_first st (tl entering) ++ logs_of st x /\
+      (entering = x :: tl entering -> added_logs evs = logs_old_first st entering) /\
+      chain_evs evs = [fst x] /\ head_evs evs = [fst x].
+Proof.
+  intros T fuel st x st' evs Hav H Hx Hc.
+  destruct (set_canonical_events T _ _ _ _ _ Hav H Hx Hc) as (lv & en & Hsw & Hr & Ha & Hce & Hhe).
+  exists lv, en. repeat split; auto. intros E. rewrite Ha. now apply entering_logs.
+Qed.
+Print Assumptions C38_set_canonical_events_exact.
+
+(* writeBlockAndSetHead (every freshly executed block of InsertChain): the same, with x's
+   logs taken from its execution; the ChainHeadEvent is deferred to the end of InsertChain *)
+Theorem C38_insert_block_events_exact :
+  forall (T : tree) fuel st x st' evs,
+    write_block_and_set_head T fuel st x = Ok (st', evs) -> hdr_ok T x ->
+    (forall s cur, cur_hdr T s = Some cur -> hdr_ok T cur) ->
+    exists st1 leaving entering, write_block_with_state st x = Ok st1 /\ switch T st1 x leaving entering /\
+      removed_logs evs = logs_old_first st1 leaving /\
+      added_logs evs = logs_old_first st1 (tl entering) ++ b_logs (snd x) /\
+      chain_evs evs = [fst x] /\ head_evs evs = [].
+Proof. exact wbash_events. Qed.
+Print Assumptions C38_insert_block_events_exact.
+
+(* writeKnownBlock (known blocks re-adopted by InsertChain).  Stated exception
+   (C38-known-reimport-silent): nothing is announced for x itself -- no ChainEvent, and its
+   logs are missing from the added logs *)
+Theorem C38_known_block_events_exact :
+  forall (T : tree) fuel st x st' evs,
+    write_known_block T fuel st x = Ok (st', evs) -> hdr_ok T x ->
+    (forall cur, cur_hdr T st = Some cur -> hdr_ok T cur) ->
+    exists leaving entering, switch T st x leaving entering /\
+      removed_logs evs = logs_old_first st leaving /\
+      added_logs evs = logs_old_first st (tl entering) /\
+      chain_evs evs = [] /\ head_evs evs = [].
+Proof. exact wkb_events. Qed.
+Print Assumptions C38_known_block_events_exact.
+
+(* Stated exception of the event statements: SetHead announces the new head only; the logs
+   of the blocks it drops are never removed (C38-sethead-no-removed-logs) *)
+Theorem C38_set_head_no_removed_logs_refuted :
+  let st := wrun [OInsert [1;2]] in
+  canon st 2 = Some 2 /\
+  exists st' evs, step WT wfuel st (OSetHead 1) = (st', evs, None) /\
+                  canon st' 2 = None /\ removed_logs evs = [] /\ head_evs evs = [1].
+Proof. exact set_head_no_removed_logs_refuted. Qed.
+Print Assumptions C38_set_head_no_removed_logs_refuted.
+
+(* Cache coherence as an invariant: along every history of all five operations on which the
+   heads stay together (every tx of [txids] asked through the cache after every operation, as
+   the harness does), every cached answer is exactly what the index answers now
+   (rawdb.ReadCanonicalTransaction: lookup entry -> canonical marker -> stored body).  This
+   is the invariant the two cache defects broke (reorg's Purge: seeded C38-1; writeHeadBlock's
+   replacing branch: 34cd8539c8, legacy witness below).  Same tree hypotheses as the index. *)
+Theorem C38_lookup_cache_coherent :
+  forall (T : tree) (fuel : nat) (txids : list N) (ops : list op),
+    wf_tree T -> (forall g, T 0 = Some g -> T (b_parent g) = None) ->
+    tx_once_per_branch T -> (forall g, T 0 = Some g -> forall tx, ~ In tx (b_txs g)) ->
+    heads_equal_along T fuel genesis_db ops ->
+    let '(st, c) := run_cache false T fuel txids genesis_db [] ops in
+    forall tx v, cache_get c tx = Some v -> resolve_tx T st tx = Some v.
+Proof.
+  intros T fuel txids ops Hwf Hgp HU Hg HE. exact (cache_coherent_history T Hwf Hgp HU Hg fuel txids ops HE).
+Qed.
+Print Assumptions C38_lookup_cache_coherent.
+
 (* the cached lookup path (BlockChain.GetCanonicalTransaction over txLookupCache, asked for
    every tx after every operation).  Code before /repo 34cd8539c8 ([legacy] = true): on the
    history "insert 1..4; restart; SetHead 2; insert competitor 5" the cache answers block 2
@@ -153,7 +262,8 @@ Theorem C38_lookup_cache_repaired : cached_vs_index false stale_ops 7 = (None, N
 Proof. exact lookup_cache_repaired. Qed.
 Print Assumptions C38_lookup_cache_repaired.
 
-Example C38_nonvacuous : wf_tree WT /\ nonvacuous_check = true /\
+Example C38_nonvacuous : tx_once_per_branch WT /\ (forall g, WT 0 = Some g -> forall tx, ~ In tx (b_txs g)) /\
+  wf_tree WT /\ nonvacuous_check = true /\
   (forall g, WT 0 = Some g -> WT (b_parent g) = None) /\
   heads_equal_along WT wfuel genesis_db guarded_ops /\ hd_header (wrun guarded_ops) = 3.
-Proof. exact nonvacuous. Qed.
+Proof. split; [exact WT_once|]. split; [exact WT_genesis_notx | exact nonvacuous]. Qed.
